@@ -252,6 +252,14 @@ def handle (stream : String) (args : List String) : String :=
     match unhex data with
     | some d => hex (tcpWire d)
     | none => "bad-args"
+  | "tcprecv", [buflen, data] =>
+    match buflen.toNat?, unhex data with
+    | some n, some d =>
+      match tcpRecv n d with
+      | .msg m _ => s!"ok {hex m}"
+      | .tooBig => "toobig"
+      | .needMore => "needmore"
+    | _, _ => "bad-args"
   | "tcpsplit", [data] =>
     match unhex data with
     | some d =>
